@@ -356,5 +356,9 @@ def cases(tier):
                    H1(method, 4, 1, False), H1(method, 2, 1, True, d=3), H1(method, 2, None, False, d=3),
                    H1(method, 5, 2, True, commuting=True), H1p(method, 4, 2, True, unique=True), H1p(method, 4, None, False),
                    H1p(method, 3, 1, True, coupling="id", unique=True)]
-        cs += [H2(3, 2, False), H2e(np.diag([-1.0, 0.0, 1.0])), H2e(np.diag([1.0, 1.0, 1.0])), H2e(np.diag([0.0, 1.0, 3.0]))]
+            cs += [H1(method, 4, 2, False), H1(method, 3, 3, True), H1(method, 2, 2, True, d=3), H1(method, 4, 3, True, commuting=True),
+                   H1(method, 3, 1, True, d=3, commuting=True), H1p(method, 3, 2, True, unique=True), H1p(method, 4, 1, True),
+                   H1p(method, 3, None, False, coupling="half")]
+        cs += [H2(3, 2, False), H2(2, 3, True), H2(3, 2, True), H2e(np.diag([-1.0, 0.0, 1.0])), H2e(np.diag([1.0, 1.0, 1.0])),
+               H2e(np.diag([0.0, 1.0, 3.0])), H2e(np.diag([0.25, 0.25, -0.5])), H2e("half")]
     return cs
